@@ -141,9 +141,10 @@ Gov == [leaf |-> "PckCertChain", inter |-> "PckCertChain", root |-> "PckCertChai
         pckCrlNext |-> "PckCrl", pckCrlSigner |-> "PckCrl", pckCrlRoot |-> "PckCrl",
         rootCrlNext |-> "RootCaCrl"]
 \* artefact a is outside its validity at its governing clock
-\* With one shared signing certificate the same certificate is the tcbSigner and the qeSigner artefact: when the time dimension
+\* With one shared issuer chain the same certificates are the tcb* and the qe* artefacts (signer and header root): when the time dimension
 \* puts its expiry E between the two clocks (governing clock before/at E, hence the other clock after E) it is expired at the other clock.
-SignerTwin(a) == IF a = "qeSigner" THEN "tcbSigner" ELSE IF a = "tcbSigner" THEN "qeSigner" ELSE "none"
+SignerTwin(a) == CASE a = "qeSigner" -> "tcbSigner" [] a = "tcbSigner" -> "qeSigner"
+                   [] a = "qeRoot" -> "tcbRoot" [] a = "tcbRoot" -> "qeRoot" [] OTHER -> "none"
 Expired(w, a)  == \/ (TimeArt(w) = a /\ TimePos(w) = "after")
                   \/ (w.sharedSigner = "shared" /\ SignerTwin(a) # "none" /\ TimeArt(w) = SignerTwin(a) /\ TimePos(w) \in {"before", "at"})
 NotYet(w, a)   == TimeArt(w) = a /\ TimePos(w) = "preNB"
